@@ -76,6 +76,10 @@ def run_impl(ctx, case):
 
     n = case["n"]
     lib = S.make_library(n, seed=case["seed"] % 1000, with_lnprior=True, alt_units=case["seed"] % 3 == 0 or bool(case.get("warm")))
+    if case["seed"] % 5 == 0:
+        # a library whose period column is single precision (its values 2 + i/256 are exact in float32) next to double-precision columns:
+        # the other columns must come back bit for bit
+        lib["P"] = lib["P"].astype(np.float32)
     rec = S.RecGen(case["seed"])
     joker = TheJoker(real_prior(), rng=rec)
     stub = None
@@ -114,7 +118,8 @@ def run_impl(ctx, case):
     un = rec.calls("uniform")
     ch = rec.calls("choice")
     obs = dict(lls=np.asarray(lls, float), rows=rows, cols=cols, n_uniform_calls=len(un), us=un[0][1] if un else np.zeros(0),
-               order=(ch[0][1].tolist() if ch else None), n_choice_calls=len(ch), samples=samples, lib=lib, stub=stub)
+               order=(ch[0][1].tolist() if ch else None), n_choice_calls=len(ch), samples=samples, lib=lib, stub=stub,
+               choice_meta=(ch[0][0] if ch else None))
     return obs
 
 
@@ -136,6 +141,10 @@ def predicate(case, obs):
     mp = case["maxpost"] if case["maxpost"] is not None else len(lls)
     good = good[:mp]
     order = np.asarray(obs["order"]) if obs["order"] is not None else np.arange(len(lls))
+    cm = obs.get("choice_meta")
+    if cm is not None and (cm["a"] != case["n"] or cm["replace"] is not False):
+        errs.append(f"the evaluation order is drawn from {cm['a']} rows (replace={cm['replace']}), the library has {case['n']}: "
+                    "the evaluated samples are not a random selection of the whole library")
     if obs["order"] is not None and (len(set(obs["order"])) != len(obs["order"]) or len(order) != n_eval or max(obs["order"]) >= case["n"]):
         errs.append("shuffled order is not a selection of distinct library rows")
         return errs
